@@ -5,6 +5,7 @@ mod util;
 mod m_canon;
 mod m_depfile;
 mod m_diag;
+mod m_opts;
 mod m_exec;
 mod m_hist;
 mod m_load;
@@ -42,6 +43,8 @@ fn main() {
         "sched" => m_sched::run(&mut ctx),
         // diagnostics of the real binary that quote manifest / command line strings: C12
         "diag" => m_diag::run(&mut ctx),
+        // -j / -k through parse_args of the real binary: C04, C05
+        "opts" => m_opts::run(&mut ctx),
         _ => {
             eprintln!("unknown mode {mode}");
             std::process::exit(2);
